@@ -8,9 +8,11 @@ import DlmsVerif.Run.Fields
 import DlmsVerif.Run.Link
 import DlmsVerif.Run.Addr
 import DlmsVerif.Run.Hdlc
+import DlmsVerif.Run.Rx
 
 structure DriverState where
   link : Run.Link.S := {}
+  rx : Run.Rx.S := {}
 
 def step (st : DriverState) (line : String) : DriverState × String :=
   match (line.trimAscii.toString.splitOn " ").filter (· ≠ "") with
@@ -18,6 +20,7 @@ def step (st : DriverState) (line : String) : DriverState × String :=
   | "fld" :: rest => (st, Run.Fields.handle rest)
   | "hdlc" :: rest => (st, Run.Hdlc.handle rest)
   | "addr" :: rest => (st, Run.Addr.handle rest)
+  | "rx" :: rest => let (l, r) := Run.Rx.handle st.rx rest; ({ st with rx := l }, r)
   | "link" :: rest => let (l, r) := Run.Link.handle st.link rest; ({ st with link := l }, r)
   | [] => (st, "bad-op")
   | _ => (st, "bad-op")
